@@ -68,6 +68,7 @@ ASSUMPTIONS = ["values are JSON (strings, integers, null, objects); Python bool/
 
 FINDING_OLD = {"site": "registries._matches_field_values", "deviation": "old_counts",
                "shape": "non-update changing handler: value= satisfied by the old state only (e.g. on.create value=ABSENT always holds)"}
+FINDING_BOTH = {"site": "registries.match", "deviation": "old_counts+cb_token"}
 FINDING_TOKEN = {"site": "registries._matches_field_values/_matches_field_changes", "deviation": "cb_token",
                  "shape": "field value/old/new callback receives the private _UNSET.token, not None, for an absent field"}
 
@@ -709,7 +710,7 @@ def classify(h: dict, st: dict, got: bool, fn: Callable[..., bool | None], site:
         if fn(h, st, dev) == got:
             return sig
     if fn(h, st, frozenset({"old_counts", "cb_token"})) == got:
-        return {"site": site, "deviation": "old_counts+cb_token"}
+        return FINDING_BOTH
     return {"site": site, "shape": "selected although a declared criterion fails" if got else "not selected although all declared criteria hold"}
 
 
@@ -1267,7 +1268,7 @@ def random_cycle_case(rng: random.Random) -> dict:
     hs = []
     for cls, kinds, nmax in (("watching", ["event"], 2), ("changing", ["create", "update", "delete", "resume", "field"], 3),
                              ("spawning", ["timer", "daemon"], 2)):
-        for _ in range(rng.choice([0, 0, 1, 1, nmax])):
+        for _ in range(rng.choice([0, 1, 1, nmax] if cls == "changing" else [0, 0, 1, 1, nmax])):
             kind = rng.choice(kinds)
             mode = rng.random()
             l = pat(LK, rng.choice(small)) if mode < 0.6 else None
@@ -1300,7 +1301,7 @@ async def run_cycle_case(env: Env, rec: Rec, case: dict, driver_reqs: list, pend
     hs = []
     for n_, (h, kind) in enumerate(case["handlers"]):
         real = env.decorate(registry, h, kind, explicit_id=True, param=n_)
-        hs.append(dict(h))
+        hs.append(dict(h, id=str(real.id)))
     meta: dict[str, Any] = {"name": "obj", "namespace": "ns", "uid": "u1", "resourceVersion": "7"}
     if case["label"] is not None:
         meta["labels"] = {LK: case["label"]}
